@@ -486,6 +486,17 @@ pub fn run_line(line: &str) -> String {
             };
             format!("{},{},{},{}", show_bool(s.is_undefined()), s.st_symtype(), s.st_bind(), s.st_vis())
         }
+        ["acc", "symf", name, shndx, info, other, value, size] => {
+            let s = Symbol {
+                st_name: nat(name) as u32,
+                st_shndx: nat(shndx) as u16,
+                st_info: nat(info) as u8,
+                st_other: nat(other) as u8,
+                st_value: nat(value) as u64,
+                st_size: nat(size) as u64,
+            };
+            format!("{},{},{},{}", show_bool(s.is_undefined()), s.st_symtype(), s.st_bind(), s.st_vis())
+        }
         ["ident", sp, hexd] => {
             let d = unhex(hexd);
             dispatch_spec!(*sp, run_ident, &d)
